@@ -801,6 +801,54 @@ Section Table3.
   Qed.
 End Table3.
 
+(** ** a message processed by an IkeSa that is still INITIAL (the responder IkeSa the dispatcher has just created):
+       no kernel operation, no CHILD_SA, no successor *)
+Section Fresh.
+  Variable E : env.
+  Notation P := (hdl_iface E).
+  Notation sa := (Shell.sa P).
+  Definition Same3 (i i' : isa) : Prop :=
+    kops i' = kops i /\ children (co i') = children (co i) /\ new_sa i' = new_sa i.
+  Lemma nochange_Same3 i i' : nochange i i' -> Same3 i i'.
+  Proof. intros (A & B & C & _). unfold Same3. auto. Qed.
+  Lemma process_message_initial (s : sa) m now :
+    st (co (inner P s)) = ST_INITIAL -> Same3 (inner P s) (inner P (fst (process_message P s m now))).
+  Proof.
+    intros Hi. assert (Hpre : st (co (inner P s)) < ST_ESTABLISHED) by (rewrite Hi; reflexivity).
+    assert (Hrefl : Same3 (inner P s) (inner P s)) by (unfold Same3; auto).
+    unfold process_message. cbv zeta.
+    destruct (process_message_decision _ _ _ _ _ _ _ _ _ _ _ _ _ _) as [reset ret].
+    set (s0 := if reset then _ else _).
+    assert (H0 : inner P s0 = inner P s) by (unfold s0; destruct reset; reflexivity).
+    destruct ret; cbn [fst]; try (rewrite H0; exact Hrefl).
+    - unfold process_request.
+      destruct (req_is_retransmission _ _ _); [cbn [fst]; rewrite H0; exact Hrefl|].
+      destruct (req_id_unexpected _ _ _); [cbn [fst]; rewrite H0; exact Hrefl|].
+      destruct (negb _); [cbn [fst]; rewrite H0; exact Hrefl|].
+      change (handle_request P (inner P s0) m) with (h_request E (inner P s0) m). rewrite H0.
+      pose proof (h_request_pre E (inner P s) m Hpre) as Ho.
+      destruct (h_request E (inner P s) m) as [i' out]. cbn [fst] in Ho.
+      destruct Ho as [(_ & Ho & _)|Ho]; [rewrite Hi in Ho; discriminate Ho|]. apply nochange_Same3 in Ho.
+      destruct out as [b|b]; cbn; exact Ho.
+    - unfold process_response.
+      destruct (res_id_unexpected _ _ _); [cbn [fst]; rewrite H0; exact Hrefl|].
+      destruct (negb _); [cbn [fst]; change (inner P (set_my_id P s0 (my_id P s0 + 1))) with (inner P s0); rewrite H0; exact Hrefl|].
+      change (inner P (set_my_id P s0 (my_id P s0 + 1))) with (inner P s0).
+      change (handle_response P (inner P s0) m) with (h_response E (inner P s0) m). rewrite H0.
+      pose proof (h_response_pre E (inner P s) m Hpre) as Ho.
+      destruct (h_response E (inner P s) m) as [i' out]. cbn [fst] in Ho.
+      destruct Ho as [(_ & Ho & _)|Ho]; [rewrite Hi in Ho; discriminate Ho|].
+      pose proof (nochange_Same3 _ _ Ho) as Hs. destruct Ho as (_ & _ & _ & Hlt).
+      destruct out as [[[x body]|] reset'|]; [destruct reset'; exact Hs| |cbn; exact Hs].
+      set (s2 := if reset' then _ else _).
+      assert (H2 : inner P s2 = i') by (unfold s2; destruct reset'; reflexivity).
+      assert (Hne : Z.eqb (state P s2) ST_ESTABLISHED = false).
+      { change (state P s2) with (st (co (inner P s2))). rewrite H2. apply Z.eqb_neq. intros Heq. rewrite Heq in Hlt.
+        discriminate Hlt. }
+      rewrite Hne. cbn [fst]. rewrite H2. exact Hs.
+  Qed.
+End Fresh.
+
 (* ------------------------------------------------------------------------------------------------ *)
 (** * E. The controller *)
 
@@ -1241,6 +1289,54 @@ Section Controller.
     destruct (leave ep s2) as [ep2 s3]. reflexivity.
   Qed.
 
+  (** the same on the responder IkeSa that was just created for an IKE_SA_INIT request: if it ignored the request
+      (it is still INITIAL) it is removed again, without the teardown (it has nothing) *)
+  Definition handle_fresh (ep : endpoint) (cid : nat) (s : esa) (m : pmsg body) : endpoint :=
+    let r := process_message P (enter ep s) m (ep_now E ep) in
+    if Z.eqb (state P (snd (leave ep (fst r)))) ST_INITIAL
+    then send (with_table (fst (leave ep (fst r))) (remove_cid E (table (fst (leave ep (fst r)))) cid)) (snd r)
+    else handle ep cid s m.
+  Definition handle_fresh_ok (ep : endpoint) (cid : nat) (s : esa) (m : pmsg body) : Prop :=
+    let r := process_message P (enter ep s) m (ep_now E ep) in
+    if Z.eqb (state P (snd (leave ep (fst r)))) ST_INITIAL then True else handle_ok ep cid s m.
+  Lemma handle_fresh_unfold ep cid (s : esa) m :
+    (let '(s2, reply) := process_message P (enter ep s) m (ep_now E ep) in
+     let '(ep2, s3) := leave ep s2 in
+     if Z.eqb (state P s3) ST_INITIAL
+     then send (set (Endpoint.table E) (fun _ => remove_cid E (table ep2) cid) ep2) reply
+     else finish E (send ep2 reply) cid s3) = handle_fresh ep cid s m.
+  Proof.
+    unfold handle_fresh, handle. destruct (process_message P (enter ep s) m (ep_now E ep)) as [s2 reply]. cbn [fst snd].
+    destruct (leave ep s2) as [ep2 s3]. reflexivity.
+  Qed.
+
+  Lemma eg_handle_fresh ep cid (s : esa) m :
+    EG ep -> In (cid, s) (table ep) -> st (co (inner P s)) = ST_INITIAL -> tracked (inner P s) = [] ->
+    handle_fresh_ok ep cid s m ->
+    EG (handle_fresh ep cid s m) /\ extends ep (handle_fresh ep cid s m).
+  Proof.
+    intros Hg Hin Hst Htr Hok. unfold handle_fresh, handle_fresh_ok in *. cbv zeta in *.
+    set (r := process_message P (enter ep s) m (ep_now E ep)) in *.
+    destruct (Z.eqb (state P (snd (leave ep (fst r)))) ST_INITIAL); [|apply eg_handle; assumption].
+    destruct (process_message_initial E (enter ep s) m (ep_now E ep) Hst) as (K1 & _). fold r in K1.
+    destruct (enter_core ep s) as [_ C2]. rewrite C2 in K1.
+    destruct (leave_facts ep (fst r)) as (_ & L2 & L3 & L4 & _). rewrite K1, app_nil_r in L2.
+    set (ep2 := fst (leave ep (fst r))) in *.
+    destruct (send_facts (with_table ep2 (remove_cid E (table ep2) cid)) (snd r)) as (S1 & S2 & S3 & _).
+    destruct Hg as (G & A & C).
+    split; [|exists []; rewrite app_nil_r; etransitivity; [exact S3|exact L2]].
+    split; [|split].
+    - eapply TG_ext; [exact S1|exact S2|exact S3|]. unfold TG. intros Hf.
+      change (TInv E (remove_cid E (table ep2) cid) (next_cid ep2) (apply_kops sd0 (ep_kops ep2))).
+      change (faithful_run sd0 (ep_kops ep2)) in Hf. rewrite L2 in *. rewrite L3, L4.
+      eapply tinv_remove_empty; [apply G; exact Hf|exact Hin|exact Htr].
+    - rewrite S1. change (table (with_table ep2 (remove_cid E (table ep2) cid))) with (remove_cid E (table ep2) cid).
+      rewrite L3. apply AllE_remove. exact A.
+    - rewrite S1, S2. change (table (with_table ep2 (remove_cid E (table ep2) cid))) with (remove_cid E (table ep2) cid).
+      change (next_cid (with_table ep2 (remove_cid E (table ep2) cid))) with (next_cid ep2).
+      rewrite L3, L4. apply cidok_remove. exact C.
+  Qed.
+
   Definition arm (ep0 : endpoint) (s0 : esa) : esa :=
     if dispatch_arm_cookie (halfopen E (table ep0))
     then with_inner P s0 (set co (fun _ => set cookie_secret (fun _ => Some (ep_cookie_secret E ep0)) (co (inner P s0))) (inner P s0))
@@ -1260,7 +1356,7 @@ Section Controller.
               | Some (ep0, cid, s0) =>
                   match parsed with
                   | None => True
-                  | Some m => handle_ok (routed (with_table ep0 (replace (table ep0) cid (arm ep0 s0))) cid) cid (arm ep0 s0) m
+                  | Some m => handle_fresh_ok (routed (with_table ep0 (replace (table ep0) cid (arm ep0 s0))) cid) cid (arm ep0 s0) m
                   end
               end
           end
@@ -1311,9 +1407,13 @@ Section Controller.
       { cbn. apply In_replace_self. apply in_map_iff. exists (cid, s0). auto. }
       destruct parsed as [m|].
       + match goal with |- context [process_message P (enter ?e ?s) m _] =>
-          rewrite (handle_unfold e cid s m); change (handle e cid s m) with (handle (routed ep1 cid) cid s1 m) end.
-        destruct (eg_handle (routed ep1 cid) cid s1 m) as [G2 X2];
-          [eapply EG_ext; [| | |exact G1]; reflexivity|exact I1|exact Hok|].
+          rewrite (handle_fresh_unfold e cid s m);
+          change (handle_fresh e cid s m) with (handle_fresh (routed ep1 cid) cid s1 m) end.
+        destruct (create_facts _ _ _ _ _ _ _ _ _ Ec) as (_ & _ & _ & _ & _ & _ & Hst0).
+        destruct (eg_handle_fresh (routed ep1 cid) cid s1 m) as [G2 X2];
+          [eapply EG_ext; [| | |exact G1]; reflexivity|exact I1
+          |unfold s1, arm; destruct (dispatch_arm_cookie _); exact Hst0
+          |unfold tracked, tracked_keys; rewrite F3, F4, Hch, Hnew; reflexivity|exact Hok|].
         split; [exact G2|]. eapply extends_trans; [exact X0|]. destruct X2 as [ks X2]. exists ks. exact X2.
       + split; [|destruct X0 as [ks X0]; exists ks; exact X0].
         destruct G1 as (G1 & A1 & C1). split; [|split; [cbn; apply AllE_remove; exact A1|cbn; apply cidok_remove; exact C1]].
@@ -1449,15 +1549,17 @@ Section Controller.
 
   (** ** one iteration of main_loop *)
   Definition start (ep : endpoint) (tnow : Z) (tp : list draw) : endpoint :=
-    set (Endpoint.ep_routed E) (fun _ => None)
+    set (Endpoint.ep_status E) (fun _ => None)
+     (set (Endpoint.ep_routed E) (fun _ => None)
       (set (Endpoint.ep_sent E) (fun _ => [])
          (set (Endpoint.ep_kops E) (fun _ => [])
-            (set (Endpoint.ep_tape E) (fun _ => tp) (set (Endpoint.ep_now E) (fun _ => tnow) ep)))).
+            (set (Endpoint.ep_tape E) (fun _ => tp) (set (Endpoint.ep_now E) (fun _ => tnow) ep))))).
   Definition event_step (ep0 : endpoint) (e : event) : endpoint :=
     match e with
     | Ev_datagram d => dispatch E ep0 d
     | Ev_acquire my peer a b i => acquire E ep0 my peer a b i
     | Ev_expire spi hard => expire E ep0 spi hard
+    | Ev_status => set (Endpoint.ep_status E) (fun _ => Some (map (fun x => Endpoint.status_of E (snd x)) (Endpoint.table E ep0))) ep0
     | Ev_none => ep0
     end.
   Lemma iteration_eq ep tnow tp e : iteration E ep tnow tp e = timers E (event_step (start ep tnow tp) e).
@@ -1467,6 +1569,7 @@ Section Controller.
     | Ev_datagram d => dispatch_ok (start ep tnow tp) d
     | Ev_acquire my peer a b i => acquire_ok (start ep tnow tp) my peer a b i
     | Ev_expire spi hard => expire_ok (start ep tnow tp) spi hard
+    | Ev_status => True
     | Ev_none => True
     end /\ timers_ok (event_step (start ep tnow tp) e).
 
@@ -1475,10 +1578,11 @@ Section Controller.
   Proof.
     intros Hg [Hok1 Hok2]. rewrite iteration_eq.
     assert (G1 : EG (event_step (start ep tnow tp) e)).
-    { destruct e as [d|my peer a b i|spi hard|]; cbn [event_step].
+    { destruct e as [d|my peer a b i|spi hard| |]; cbn [event_step].
       - apply (eg_dispatch _ _ Hg Hok1).
       - apply (eg_acquire _ _ _ _ _ _ Hg Hok1).
       - apply (eg_expire _ _ _ Hg Hok1).
+      - exact Hg.
       - exact Hg. }
     apply (eg_timers _ G1 Hok2).
   Qed.
@@ -1538,7 +1642,7 @@ Section Whole.
     intros (H1 & H2 & H3). split; [exact H1|]. split; [exact H2|]. eapply IH. exact H3.
   Qed.
 
-  Lemma einv_empty n cf sec tp now ko se ro : EInv E (mk_ep E [] n cf sec tp now ko se ro) [].
+  Lemma einv_empty n cf sec tp now ko se ro su : EInv E (mk_ep E [] n cf sec tp now ko se ro su) [].
   Proof.
     split; [|intros c0 s []]. unfold TInv. cbn.
     split; [constructor|]. split; [intros k; tauto|]. split; [constructor|]. split; [intros c0 s []|].
@@ -1548,7 +1652,7 @@ Section Whole.
   (** after EVERY prefix of EVERY history from the empty table the kernel SAD is exactly the set of keys of the
       CHILD_SAs of the IkeSas in the table (and of their unregistered successors), no key twice *)
   Theorem history_inv cf sec evs1 evs2 :
-    let ep0 := mk_ep E [] 0 cf sec [] 0 [] [] None in
+    let ep0 := mk_ep E [] 0 cf sec [] 0 [] [] None None in
     run_ok ep0 [] (evs1 ++ evs2) -> EInv E (run ep0 evs1) (run_sad ep0 [] evs1).
   Proof.
     intros ep0 Hok. apply run_inv; [apply einv_empty|]. eapply run_ok_app. exact Hok.
@@ -1628,11 +1732,72 @@ Section TableClauses.
     create E ep false (be_encode 8 (Z.to_N (h_spi_i h))) c my peer = Some (ep0, cid, s0) ->
     cid = next_cid E ep /\ table E ep0 = table E ep ++ [(cid, s0)]
     /\ dispatch E ep (Dg h my peer (Some m))
-       = handle E (routed E (with_table E ep0 (Endpoint.replace E (table E ep0) cid (arm E ep0 s0))) cid) cid (arm E ep0 s0) m.
+       = handle_fresh E (routed E (with_table E ep0 (Endpoint.replace E (table E ep0) cid (arm E ep0 s0))) cid) cid (arm E ep0 s0) m.
   Proof.
     intros H1 H2 H3. destruct (create_facts E _ _ _ _ _ _ _ _ _ H3) as (A & B & _).
     split; [exact A|]. split; [exact B|]. unfold dispatch. rewrite H1, H2, H3.
-    match goal with |- context [process_message P (Endpoint.enter E ?e ?s) m _] => exact (handle_unfold E e cid s m) end.
+    match goal with |- context [process_message P (Endpoint.enter E ?e ?s) m _] => exact (handle_fresh_unfold E e cid s m) end.
+  Qed.
+  Lemma handle_fresh_def (ep : endpoint) cid (s : esa) m :
+    handle_fresh E ep cid s m =
+    if Z.eqb (state P (snd (leave E ep (fst (process_message P (enter E ep s) m (ep_now E ep)))))) ST_INITIAL
+    then send E (with_table E (fst (leave E ep (fst (process_message P (enter E ep s) m (ep_now E ep)))))
+                   (remove_cid E (table E (fst (leave E ep (fst (process_message P (enter E ep s) m (ep_now E ep)))))) cid))
+                (snd (process_message P (enter E ep s) m (ep_now E ep)))
+    else handle E ep cid s m.
+  Proof. reflexivity. Qed.
+
+  (** the fixed behaviour (/repo 73b0c79): an IKE_SA_INIT request that the fresh responder IkeSa ignores (it is still
+      INITIAL after process_message: wrong Message ID, initiator flag clear, ...) leaves the table as it was, issues
+      no kernel operation, and whatever process_message returned (nothing) is what is sent *)
+  Lemma remove_replace_tc (t : list (nat * esa)) c (s : esa) :
+    remove_cid E (Endpoint.replace E t c s) c = remove_cid E t c.
+  Proof.
+    induction t as [|[c0 x] r IH]; cbn; [reflexivity|]. destruct (Nat.eqb c0 c) eqn:Ec; cbn; rewrite Ec; [reflexivity|].
+    f_equal. exact IH.
+  Qed.
+  Lemma remove_fresh (t : list (nat * esa)) cid (s : esa) :
+    ~ In cid (map fst t) -> remove_cid E (t ++ [(cid, s)]) cid = t.
+  Proof.
+    intros Hn. induction t as [|[c0 x] r IH]; cbn; [rewrite Nat.eqb_refl; reflexivity|].
+    destruct (Nat.eqb c0 cid) eqn:Ec; [apply Nat.eqb_eq in Ec; exfalso; apply Hn; left; exact Ec|].
+    f_equal. apply IH. intros H. apply Hn. right. exact H.
+  Qed.
+  Theorem ignored_init_request_leaves_nothing (ep : endpoint) h my peer (m : pmsg body) c ep0 cid (s0 : esa) :
+    (forall x, In x (map fst (table E ep)) -> (x < next_cid E ep)%nat) ->
+    dispatch_is_init_request (h_exch h) (negb (h_resp h)) = true -> find_conf E ep my peer = Some c ->
+    create E ep false (be_encode 8 (Z.to_N (h_spi_i h))) c my peer = Some (ep0, cid, s0) ->
+    let ep1 := routed E (with_table E ep0 (Endpoint.replace E (table E ep0) cid (arm E ep0 s0))) cid in
+    let r := process_message P (enter E ep1 (arm E ep0 s0)) m (ep_now E ep1) in
+    state P (fst r) = ST_INITIAL ->
+    table E (dispatch E ep (Dg h my peer (Some m))) = table E ep
+    /\ ep_kops E (dispatch E ep (Dg h my peer (Some m))) = ep_kops E ep
+    /\ ep_sent E (dispatch E ep (Dg h my peer (Some m))) = ep_sent E (send E ep (snd r)).
+  Proof.
+    intros Hlt H1 H2 H3 ep1 r Hst.
+    destruct (dispatch_init_request ep h my peer m c ep0 cid s0 H1 H2 H3) as (A & B & ->).
+    destruct (create_facts E _ _ _ _ _ _ _ _ _ H3) as (_ & _ & _ & Hk & _ & _ & Hst0).
+    rewrite handle_fresh_def. fold ep1. fold r.
+    destruct (leave_facts E ep1 (fst r)) as ([L0 _] & L2 & L3 & _).
+    assert (Hs3 : Z.eqb (state P (snd (leave E ep1 (fst r)))) ST_INITIAL = true).
+    { change (state P (snd (leave E ep1 (fst r)))) with (st (co (inner P (snd (leave E ep1 (fst r)))))).
+      rewrite L0. change (st (co (inner P (fst r)))) with (state P (fst r)). rewrite Hst. reflexivity. }
+    rewrite Hs3.
+    assert (Hi : st (co (inner P (enter E ep1 (arm E ep0 s0)))) = ST_INITIAL).
+    { unfold arm. destruct (dispatch_arm_cookie _); exact Hst0. }
+    destruct (process_message_initial E (enter E ep1 (arm E ep0 s0)) m (ep_now E ep1) Hi) as (K1 & _). fold r in K1.
+    destruct (send_facts E (with_table E (fst (leave E ep1 (fst r))) (remove_cid E (table E (fst (leave E ep1 (fst r)))) cid)) (snd r))
+      as (S1 & _ & S3 & _).
+    split; [|split].
+    - rewrite S1. change (table E (with_table E (fst (leave E ep1 (fst r))) (remove_cid E (table E (fst (leave E ep1 (fst r)))) cid)))
+        with (remove_cid E (table E (fst (leave E ep1 (fst r)))) cid).
+      rewrite L3. change (table E ep1) with (Endpoint.replace E (table E ep0) cid (arm E ep0 s0)).
+      rewrite remove_replace_tc, B. apply remove_fresh. intros Hin. apply Hlt in Hin. rewrite A in Hin. exact (Nat.lt_irrefl _ Hin).
+    - rewrite S3. change (ep_kops E (with_table E (fst (leave E ep1 (fst r))) (remove_cid E (table E (fst (leave E ep1 (fst r)))) cid)))
+        with (ep_kops E (fst (leave E ep1 (fst r)))).
+      rewrite L2, K1. cbn. rewrite app_nil_r. exact Hk.
+    - unfold send, leave. destruct (rek_push (inner P (fst r))); destruct (snd r); cbn; unfold create in H3;
+        destruct (new_core false _ _ _) as [[nc|e|] i1]; try discriminate H3; injection H3 as <- _ _; reflexivity.
   Qed.
   Lemma handle_def (ep : endpoint) cid (s : esa) m :
     handle E ep cid s m =
@@ -2077,6 +2242,20 @@ Section RegEndpoint.
       apply process_message_rg. exact Hq.
   Qed.
 
+  Lemma q_handle_fresh ep cid (s : esa) m :
+    AllQ (table ep) -> Qe (inner P s) -> AllQ (table (handle_fresh E ep cid s m)).
+  Proof.
+    intros Ha Hq. unfold handle_fresh. cbv zeta.
+    set (r := process_message P (Endpoint.enter E ep s) m (ep_now E ep)).
+    destruct (Z.eqb _ ST_INITIAL); [|apply q_handle; assumption].
+    destruct (send_facts E (with_table E (fst (Endpoint.leave E ep (fst r)))
+                              (remove_cid E (table (fst (Endpoint.leave E ep (fst r)))) cid)) (snd r)) as (S1 & _).
+    refine (eq_ind_r AllQ _ S1).
+    change (AllQ (remove_cid E (table (fst (Endpoint.leave E ep (fst r)))) cid)).
+    destruct (leave_facts E ep (fst r)) as (_ & _ & L3 & _). refine (eq_ind_r (fun t => AllQ (remove_cid E t cid)) _ L3).
+    apply AllQ_remove. exact Ha.
+  Qed.
+
   Lemma q_create ep ii pspi c my peer ep0 cid (s0 : esa) :
     create E ep ii pspi c my peer = Some (ep0, cid, s0) -> AllQ (table ep) ->
     AllQ (table ep0) /\ Qe (inner P s0).
@@ -2098,8 +2277,8 @@ Section RegEndpoint.
       { unfold arm. destruct (dispatch_arm_cookie _); [|exact Q0]. exact Q0. }
       destruct parsed as [m|].
       + match goal with |- context [process_message P (Endpoint.enter E ?e ?s) m _] =>
-          rewrite (handle_unfold E e cid s m) end.
-        apply q_handle; [cbn; apply AllQ_replace; [exact A0|exact Q1]|exact Q1].
+          rewrite (handle_fresh_unfold E e cid s m) end.
+        apply q_handle_fresh; [cbn; apply AllQ_replace; [exact A0|exact Q1]|exact Q1].
       + cbn. apply AllQ_remove. apply AllQ_replace; [exact A0|exact Q1].
     - cbv zeta. match goal with |- context [find ?f (table ep)] => destruct (find f (table ep)) as [[cid s]|] eqn:Ef end; [|exact Ha].
       destruct parsed as [m|]; [|exact Ha].
@@ -2163,8 +2342,8 @@ Section RegEndpoint.
   Proof.
     intros Ha. rewrite iteration_eq. unfold timers.
     assert (A1 : AllQ (table (event_step E (start E ep tnow tp) e))).
-    { destruct e as [d|my peer a b i|spi hard|]; cbn [event_step];
-        [apply q_dispatch|apply q_acquire|apply q_expire|]; exact Ha. }
+    { destruct e as [d|my peer a b i|spi hard| |]; cbn [event_step];
+        [apply q_dispatch|apply q_acquire|apply q_expire| |]; exact Ha. }
     apply q_sweep; [intros s now; apply check_lifetime_q|].
     apply q_sweep; [intros s now; apply check_dpd_q|]. apply q_rt. exact A1.
   Qed.
@@ -2211,7 +2390,7 @@ Qed.
 Module EpExample.
   Import HdlSad.Example.
   Definition cfs : list (Z * Z * conf) := [(10, 20, cf0)].
-  Definition ep_empty : endpoint E0 := mk_ep E0 [] 0 cfs [9%N] [] 0 [] [] None.
+  Definition ep_empty : endpoint E0 := mk_ep E0 [] 0 cfs [9%N] [] 0 [] [] None None.
 
   (** an ACQUIRE creates an initiator IkeSa (IKE_SA_INIT request sent); a message for an unknown SPI and a datagram
       that is not an IKE message change nothing *)
@@ -2235,7 +2414,7 @@ Module EpExample.
   (** an endpoint holding one established responder IkeSa with one CHILD_SA (keys installed): a DELETE request for
       the CHILD_SA, then a DELETE request for the IKE_SA; the kernel answers faithfully *)
   Definition ep_one : endpoint E0 :=
-    mk_ep E0 [(0%nat, sa_of_core E0 (core0 ST_ESTABLISHED [ch1]))] 1 cfs [9%N] [] 0 [] [] None.
+    mk_ep E0 [(0%nat, sa_of_core E0 (core0 ST_ESTABLISHED [ch1]))] 1 cfs [9%N] [] 0 [] [] None None.
   Example ep_one_inv : EInv E0 ep_one own1.
   Proof.
     split.
